@@ -261,6 +261,14 @@ theorem ReqInv.step {s : ReqSys} (h : ReqInv s) (e : ReqEv) : ReqInv (s.step e) 
           exact plain
       · exact plain
     · exact ⟨hc, hg, hsg, hout, hbound, hsif, hshape⟩
+  | recvDropped t =>
+    simp only [ReqSys.step]
+    split
+    · rename_i x hpc
+      have hpc' : pcOf s.pcs .idle t ≠ .sendInFlight := by
+        rw [← ReqSys.pc_eq, hpc]; simp
+      exact ⟨hc, hg, hsg, hout, hbound, hsif.set_other hpc' (by simp) rfl, hshape⟩
+    · exact ⟨hc, hg, hsg, hout, hbound, hsif, hshape⟩
   | peerReplies =>
     simp only [ReqSys.step]
     split
@@ -550,6 +558,11 @@ theorem StrictInv.step {s : ReqSys} (hb : ReqInv s) (h : StrictInv s) (e : ReqEv
           simp [List.count_append, h2]
     · exact h
   | recvFail t => simp [ReqEv.abandons] at hgood
+  | recvDropped t =>
+    simp only [ReqSys.step]
+    split
+    · exact h.of_eq rfl rfl
+    · exact h
   | peerReplies =>
     simp only [ReqSys.step]
     split
@@ -661,7 +674,7 @@ theorem RepInv.step {s : RepSys} (h : RepInv s) (e : RepEv) : RepInv (s.step e) 
           have e2 : t2 = t := Classical.byContradiction fun hne => hno t2 hne h2
           rw [e1, e2]
       · exact ⟨hc, hlog, honly, hex, huniq⟩
-  | recvGot t =>
+  | recvGot t i =>
     simp only [RepSys.step]
     split
     · exact ⟨hc, hlog, honly, hex, huniq⟩
@@ -670,8 +683,8 @@ theorem RepInv.step {s : RepSys} (h : RepInv s) (e : RepEv) : RepInv (s.step e) 
       have hst := honly t hpc
       split
       · exact ⟨hc, hlog, honly, hex, huniq⟩
-      · rename_i src rest hpend
-        have hno : ∀ t', ¬ (RepSys.setPc { s with pending := rest, st := .receivedRequest src, log := s.log ++ [.recv src] } t .idle).pc t' = .recvInFlight := by
+      · rename_i src hpend
+        have hno : ∀ t', ¬ (RepSys.setPc { s with pending := s.pending.eraseIdx i, st := .receivedRequest src, log := s.log ++ [.recv src] } t .idle).pc t' = .recvInFlight := by
           intro t' hp
           rw [RepSys.pc_setPc] at hp
           split at hp
